@@ -18,7 +18,8 @@ def keys_present(data, arr, n):
     return ForAll([j], Implies(And(0 <= j, j < n), And(Val.is_S(arr[j]), Opt.is_Some(data[Val.s(arr[j])]))))
 
 
-@contract('OutputFunc._event_put', qual=Q + '_event_put', modifies=DELIVERY, self_cls='OutputFunc', propagates_delivery_errors=True)
+@contract('OutputFunc._event_put', qual=Q + '_event_put', modifies=DELIVERY, self_cls='OutputFunc', propagates_delivery_errors=True,
+          traced=lambda a, st: rec('_event_put', to_val(a['self'], st), kw=a['data'].arr))
 def _of_put(c):
     me = c.z('self')
     data = c.arg('data').arr
@@ -69,3 +70,36 @@ def inv_sends(which):
 def verify_outputfunc(run):
     run.verify('OutputFunc._event_put', cls='OutputFunc', calls={'*value*': func_call},
                invariants={'for ev in self._on_error': inv_sends('error'), 'for ev in self._on_success': inv_sends('success')})
+
+
+# ---- OutputFunc.stop: stop_data is processed as the block's last action -------------------------------------------------------------------------
+def of_super_stop(ex, e, st):
+    st = st.copy(); ex.emit(st, rec('super.stop', to_val(st.env['self'], st)))
+    return [(st, P_NONE)]
+
+
+@contract('OutputFunc.stop', qual=Q + 'stop', modifies=DELIVERY, self_cls='OutputFunc')
+def _of_stop(c):
+    me = c.z('self')
+    sd = c.pre('_stop_data', me)
+    c.requires('stop_data_is_none_or_a_dict', Or(sd == Val.VNone, And(Val.is_D(sd), Not(Opt.is_Some(dict_c(Val.dk(sd))[StringVal('self')])))))
+    A, nA = c.pre('_f_args', me); K, nK = c.pre('_f_kwargs', me)
+    OS, nS = c.pre('_on_success', me); OE, nE = c.pre('_on_error', me)
+    j = Int('j!st')
+    c.requires('configuration', And(nA >= 0, nK >= 0, nS >= 0, nE >= 0, events_are_objects(OS, nS), events_are_objects(OE, nE),
+               ForAll([j], Implies(And(0 <= j, j < nA), Val.is_S(A[j]))), ForAll([j], Implies(And(0 <= j, j < nK), Val.is_S(K[j])))))
+    c.raises('KeyError', when=sd != Val.VNone, unchanged=False, label='stop_data_lack_an_item_named_in_f_args_or_f_kwargs')
+    c.raises('DeliveryError', when=sd != Val.VNone, unchanged=False, label='delivery_of_a_result_event_failed')
+    if c.verifying:
+        def expected(k, r, st):
+            fn = z3.simplify(Rec.fn(r)).as_string()
+            if fn == '_event_put':
+                return [('stop_data_are_processed_like_a_put_event', And(k == 0, sd != Val.VNone, Rec.recv(r) == Val.Obj(me), Rec.kw(r) == dict_c(Val.dk(sd))))]
+            if fn == 'super.stop':
+                return [('then_the_inherited_stop_last', k == If(sd != Val.VNone, 1, 0))]
+            return [('no_other_call', BoolVal(False))]
+        c.expect_trace(expected, 2, normal_len=If(sd != Val.VNone, 2, 1), predicate=True)
+
+
+def verify_outputfunc_stop(run):
+    run.verify('OutputFunc.stop', cls='OutputFunc', calls={'super().stop': of_super_stop})
